@@ -104,3 +104,7 @@ claim("C13", "fault injection over generated histories: worker process aborted a
 claim("C19", "property-based testing over generated inscriptions and server configurations; validity predicate per HTTP response",
       "Hand-built inscriptions (content types incl. invalid bytes, encodings, delegates, hidden ids, reinscriptions) are served by an in-process ord server; every response is judged for body fidelity, content type, encoding handling, CSP presence and sandbox sources, hidden-content leaks and cache headers.",
       "Accept-Encoding acceptance = ord's exact-token rule; transport compression undone before comparing.")
+
+claim("C18", "differential property testing: HTTP JSON of an in-process ord server vs the table dump, over generated index states",
+      "Every JSON/recursive route is requested for sampled objects of generated chains (incl. page boundaries) and compared field by field with the H1 dump and the generated blocks; pagination is recomputed by the harness.",
+      "Bodies are deserialised with ord::api types; spaced runes compared in printed form.")
